@@ -24,6 +24,9 @@ def h64(*parts):
 _FD_EVENTS = frozenset(('socket', 'close', 'established', 'send', 'recv', 'recv-timeout', 'recv-rst', 'listen', 'connect', 'bind', 'accept'))
 
 
+_CONN_EVENTS = frozenset(('resolve', 'connect', 'established', 'accept', 'close', 'bind'))
+
+
 class Stats:
     """Counters for one check run; `merge` folds in a worker's partial."""
 
@@ -39,16 +42,21 @@ class Stats:
         self.extra = collections.Counter()
         self.caps = []
 
-    def execution(self, world=None, outcome=None, root=None, nontrivial=None):
-        """Account one execution: states are distinct prefixes of the environment event log under a root input id."""
+    def execution(self, world=None, outcome=None, root=None, nontrivial=None, detail='conn'):
+        """Account one execution.  A *state* is a distinct node of the exploration: the root input together with a prefix of the
+        environment event log.  detail='full' takes every prefix, 'conn' (default) the prefixes ending at connection-level events
+        (resolve, connect, established, accept, close) plus the final one, 'light' only the final one.  Transitions = events executed."""
         self.evaluations += 1
         if world is not None:
             # builtin hash: identical across the forked workers of one run (same hash seed), and fast
             hv = hash(('root', repr(root)))
-            self.states.add(hv)
+            if detail != 'light':
+                self.states.add(hv)
             for ev in world.log:
                 hv = hash((hv, ev[0], ev[2:] if ev[0] in _FD_EVENTS else ev[1:]))
-                self.states.add(hv)
+                if detail == 'full' or (detail == 'conn' and ev[0] in _CONN_EVENTS):
+                    self.states.add(hv)
+            self.states.add(hash((hv, repr(outcome))))
             self.transitions += len(world.log)
         else:
             self.states.add(h64('root', root, outcome))
@@ -56,7 +64,7 @@ class Stats:
         if outcome is not None:
             self.outcomes[outcome] += 1
         if nontrivial is not None:
-            self.nontrivial.add(h64(nontrivial))
+            self.nontrivial.add(hash(repr(nontrivial)))
 
     def sample(self, s, cap=12):
         if len(self.samples) < cap:
